@@ -302,6 +302,56 @@ class SplitFirst(_NoArgs, DisjointUnionStrategy):
         return tuple(res)
 
 
+class SplitTwo(_NoArgs, DisjointUnionStrategy):
+    """Disjoint union on the next two letters (a second way to expand a class: several rules per class)."""
+
+    def _kids(self, c):
+        if c.atom:
+            return None
+        out = []
+        if c.t.acc[c.q]:
+            out.append((c.q, c.prefix, True))
+        for i, x in enumerate("ab"):
+            q1 = c.t.delta[c.q][i]
+            if c.t.acc[q1]:
+                out.append((q1, c.prefix + x, True))
+        for i, x in enumerate("ab"):
+            for j, y in enumerate("ab"):
+                out.append((c.t.delta[c.t.delta[c.q][i]][j], c.prefix + x + y, False))
+        return out
+
+    def decomposition_function(self, c):
+        ks = self._kids(c)
+        if ks is None:
+            return None
+        return tuple(Lang(c.t, q, pre, atom, child_stats(c.stats, c.t, q, pre, atom)[0]) for q, pre, atom in ks)
+
+    def extra_parameters(self, c, children=None):
+        return tuple(child_stats(c.stats, c.t, q, pre, atom)[1] for q, pre, atom in self._kids(c))
+
+    def formal_step(self):
+        return "split on the next two letters"
+
+    def forward_map(self, c, obj, children=None):
+        ks = self._kids(c)
+        res = [None] * len(ks)
+        for i, (q, pre, atom) in enumerate(ks):
+            if (atom and obj == pre) or (not atom and len(obj) >= len(pre) and obj[:len(pre)] == pre and len(pre) == len(c.prefix) + 2):
+                res[i] = obj
+                break
+        return tuple(res)
+
+
+def doubled(t):
+    """The same language on a redundant automaton: every state in two copies, transitions alternate between the copies."""
+    S = t.S
+    delta = []
+    for c in (0, 1):
+        for q in range(S):
+            delta.append(tuple(t.delta[q][x] + (1 - c) * S for x in (0, 1)))
+    return Table(delta, tuple(t.acc) * 2)
+
+
 class PeelPrefix(_NoArgs, CartesianProductStrategy):
     def _kids(self, c):
         if c.atom or not c.prefix or c.is_empty():
@@ -488,7 +538,7 @@ class MixFactory(StrategyFactory):
         return "MixFactory"
 
 
-OPTION_NAMES = ("iterative", "inferral", "symmetry", "factory", "factory2", "finite")
+OPTION_NAMES = ("iterative", "inferral", "symmetry", "factory", "factory2", "finite", "two")
 
 
 def mkpack(opts=()):
@@ -501,6 +551,8 @@ def mkpack(opts=()):
     inf = [MergeState()] if "inferral" in opts else []
     sym = [SwapLetters()] if ("symmetry" in opts and not stats) else []
     exp = [[MixFactory("factory2" in opts)]] if ("factory" in opts or "factory2" in opts) else [[SplitFirst()]]
+    if "two" in opts:
+        exp = [exp[0] + [SplitTwo()]]
     # with a factory in the pack the prefix is peeled by the factory's ready rule, not by an initial strategy
     init = [] if ("factory" in opts or "factory2" in opts) else [PeelPrefix()]
     return StrategyPack(initial_strats=init, inferral_strats=inf, expansion_strats=exp, ver_strats=ver,
@@ -519,7 +571,7 @@ def selftest_table(t, stats_modes=("", "k", "kk", "ku"), N=4):
         seen = set()
         while todo:
             c = todo.pop()
-            if c in seen or len(c.prefix) > 2:
+            if c in seen or len(c.prefix) > 3:
                 continue
             seen.add(c)
             objs = {n: sorted(c.objects_of_size(n)) for n in range(N + 1)}
@@ -528,7 +580,7 @@ def selftest_table(t, stats_modes=("", "k", "kk", "ku"), N=4):
             assert c.is_empty() == (not any(words(c.t, n, c.q, c.prefix) for n in range(len(c.prefix), len(c.prefix) + c.t.S + 1)) and not c.atom), c
             if not c.is_empty():
                 assert c.minimum_size_of_object() == min(n for n in range(len(c.prefix) + c.t.S + 2) if (c.atom and n == len(c.prefix)) or (not c.atom and words(c.t, n, c.q, c.prefix))), c
-            for strat in (SplitFirst(), PeelPrefix(), MergeState()) + ((SwapLetters(),) if not stats else ()):
+            for strat in (SplitFirst(), SplitTwo(), PeelPrefix(), MergeState()) + ((SwapLetters(),) if not stats else ()):
                 kids = strat.decomposition_function(c)
                 if kids is None:
                     continue
